@@ -22,6 +22,12 @@ The compiled kernels cannot be observed, so:
     (v2 dictionary, v2 YAML, v2 TOML, v1 YAML through ladim.main.main), float64 / float32 / warm-started state, a killing IBM,
     extra forcing, flow direction and speed (in a reversed run the file stores the negated flow); judged in-process on the
     recording arrays and again with the compiled kernels under NUMBA_BOUNDSCHECK=1.
+  * arrangement cases (both tiers, always the same, right after the option combinations; c17_order.py): 12 metamorphic pairs,
+    the same small simulation in the usual arrangement of its inputs and in another, equally legal one (key order of grid.Vinfo,
+    order of the release-file columns, header line / release.names, order of rows with equal release time, order of
+    extra_forcing, of the configuration's sections / keys / output variables, dictionary / YAML entry, order and storage type
+    of the NetCDF variables, per-file time units of a three-file forcing); both runs judged as above (in-process and under
+    NUMBA_BOUNDSCHECK=1) and the positions they write must agree.
 Oracle = the property text: an index < 0 or >= extent (or numpy's IndexError) is a read outside the array.
 """
 from __future__ import annotations
@@ -38,6 +44,7 @@ import numpy as np
 import romsfiles as rf
 import c17_scale as scale
 import c17_opts as opts
+import c17_order as order
 from coqbridge import fl
 
 PROP = "C17"
@@ -52,7 +59,8 @@ RULE = ("kernel cases: trilinear / sample3DUV (both methods) / nearest / z2s Pyt
         "grows and shrinks every step, 700-wide / 700-tall grids with 35 levels, 1100-1300 steps over 13-14 forcing files; "
         "option-combination cases: 21 fixed simulations covering every legal pair of {time reversal, EF/RK2/RK4, subgrid, diffusion, vertical "
         "diffusion, 1/3 forcing files, f8/f4/packed forcing, release once/continuous/timed, v2 dict/v2 YAML/v2 TOML/v1 YAML entry, "
-        "float64/float32/warm-started state, killing IBM, extra forcing, 4 flow directions, 3 speeds}. Non-trivial = distinct (kind, seed) whose reads touch "
+        "float64/float32/warm-started state, killing IBM, extra forcing, 4 flow directions, 3 speeds}; arrangement cases: 12 fixed pairs (usual arrangement / another legal one: Vinfo key order, release columns, header line, "
+        "row order, extra_forcing order, configuration order, YAML entry, NetCDF variable order and storage, per-file time units), same verdicts and equal positions. Non-trivial = distinct (kind, seed) whose reads touch "
         "the first or last row/column of an array, or a simulation in which a stage position was clipped.")
 TRUSTED = ["Coq 8.16.1 kernel + vm_compute", "hand-written model coq/Model/Interp.v tied by this correspondence",
            "the kernels' .py_func bodies are the source numba compiles (numba itself trusted)",
@@ -143,6 +151,9 @@ def gen_cases(ctx):
     # the option-combination family: fixed descriptions (a pairwise-covering table), always right after the scale family
     opt_descs = opts.opts_descs()
     out.extend(opt_descs)
+    # the arrangement family: fixed descriptions (metamorphic pairs), always right after the option combinations
+    ord_descs = order.order_descs()
+    out.extend(ord_descs)
     for _ in range(nt):
         out.append({"k": "tri", "seed": rng.randrange(10**9)})
     for n in range(nuv):
@@ -168,10 +179,10 @@ def gen_cases(ctx):
         out.append({"k": "sim", "seed": rng.randrange(10**9), "adv": ["RK4", "RK2", "RK4", "EF"][n % 4], "dir": n % 8,
                     "speed": [1, 2][(n // 8) % 2] if ctx.quick is False else [1, 2][(n // 4) % 2], "diffusion": False, "exact": True})
     # the same scenarios with the COMPILED kernels under NUMBA_BOUNDSCHECK=1 (subprocess; a few seconds per batch)
-    batch = [c for c in out if c["k"] == "sim" and not c.get("scale") and not c.get("opts")]
+    batch = [c for c in out if c["k"] == "sim" and not c.get("scale") and not c.get("opts") and "order" not in c]
     for b in range(0, len(batch), 40):
         # the scale scenarios (all particles through the compiled kernels) and the option combinations ride in the first batch
-        out.append({"k": "boundscheck", "scenarios": (scale_both + scale_bc + opt_descs if b == 0 else []) + batch[b:b + 40]})
+        out.append({"k": "boundscheck", "scenarios": (scale_both + scale_bc + opt_descs + ord_descs if b == 0 else []) + batch[b:b + 40]})
     return out
 
 
@@ -373,6 +384,8 @@ def write_scenario(d, desc):
         return scale.write_scale_scenario(d, desc)
     if desc.get("opts"):      # for these `conf` is a run plan (one or two legs, dictionary or configuration file), see c17_opts
         return opts.write_opts_scenario(d, desc)
+    if "order" in desc:       # `conf` is a run plan: the usual arrangement of the inputs and another one, see c17_order
+        return order.write_order_scenario(d, desc)
     rng = np.random.default_rng(desc["seed"])
     imax0, jmax0, N = int(rng.integers(12, 17)), int(rng.integers(10, 15)), int(rng.integers(2, 5))
     dt, dx, nsteps = 600, 1000.0, 4
@@ -450,6 +463,8 @@ def run_scenario(conf, desc):
 
     if desc.get("opts"):      # entry point (Model on a dictionary / ladim.main.main on a v2 YAML, v2 TOML or v1 YAML file) chosen by the case
         return opts.run_opts(conf, desc)
+    if "order" in desc:       # both arrangements, then the comparison of the positions they wrote
+        return order.run_order(conf, desc)
 
     def cast(model, k):
         st = model.state
@@ -551,7 +566,8 @@ def eval_sim(desc, ctx):
             pass
     where = (f"advection={desc['adv']} flow {desc['speed']} cells/step direction {DIRS[desc['dir']]} subgrid={info['sub']} grid={info['shape']}"
              + (" float32 state positions" if desc.get("f32") else "") + (" integer positions" if desc.get("exact") else "")
-             + (scale.describe(desc) if big else "") + (opts.describe(desc) if desc.get("opts") else ""))
+             + (scale.describe(desc) if big else "") + (opts.describe(desc) if desc.get("opts") else "")
+             + (order.describe(desc) if "order" in desc else ""))
     oracle = None
     badclip = badclips[0] if badclips else None
     bad = [c for c in calls if not c[6]]
@@ -590,7 +606,7 @@ def eval_sim(desc, ctx):
     most = max([c[9] for c in calls], default=0)
     return {"ints": ints or None, "oracle": oracle, "nontrivial": ("sim", desc["seed"]) if clipped else None,
             "kind": f"sim-{desc['adv']}" + ("-diffusion" if desc.get("diffusion") else "") + ("-float32" if desc.get("f32") else "")
-                    + ("-integer" if desc.get("exact") else "") + ("-scale" if big else "") + ("-options" if desc.get("opts") else ""),
+                    + ("-integer" if desc.get("exact") else "") + ("-scale" if big else "") + ("-options" if desc.get("opts") else "") + ("-arrangement" if "order" in desc else ""),
             "observed": {"kernel_calls": len(calls), "outside": len(bad), "clip_calls": len(clips), "crash": crash, "subgrid": info["sub"], "clipped": clipped,
                          **({"particles_in_largest_call": most, "particles_accounted_for": int(sum(c[7] for c in calls))} if big else {})}}
 
@@ -644,7 +660,7 @@ def eval_boundscheck(desc, ctx):
     if bad:
         dsc = [s for s in desc["scenarios"] if s["seed"] == bad[0]["seed"]][0]
         oracle = (f"end-to-end run with NUMBA_BOUNDSCHECK=1: {bad[0]['result']} (advection={dsc['adv']} flow {dsc['speed']} cells/step "
-                  f"direction {DIRS[dsc['dir']]} subgrid={bad[0].get('sub')} seed={dsc['seed']}{scale.describe(dsc) if dsc.get('scale') else ''}{opts.describe(dsc) if dsc.get('opts') else ''})")
+                  f"direction {DIRS[dsc['dir']]} subgrid={bad[0].get('sub')} seed={dsc['seed']}{scale.describe(dsc) if dsc.get('scale') else ''}{opts.describe(dsc) if dsc.get('opts') else ''}{order.describe(dsc) if 'order' in dsc else ''})")
     return {"ints": None, "oracle": oracle, "nontrivial": ("boundscheck", len(res["runs"])), "kind": "boundscheck",
             "observed": {"runs": len(res["runs"]), "failed": len(bad), "boundscheck": res["boundscheck"]}}
 
